@@ -7,6 +7,7 @@ CONSTANTS
   Limits = {2}
   MaxDepth = 0
   EmitCases = FALSE
+  Hows = {"respond", "reset", "clientClose", "serverClose"}
   Dev = {}
 INIT Init
 NEXT NextStop
